@@ -1,9 +1,9 @@
-(* C39, case: neither globals nor locals given (evaluation happens in the caller's frame or the
-   module's namespace; no dictionary was handed over, so only the value part is claimed). *)
+(* C39, case: neither globals nor locals given and no module either (evaluation happens in the
+   caller's frame; no dictionary was handed over, so only the value part is claimed). *)
 From HyV Require Import State.EvalRestoreTactics.
 
-Lemma case_none O (F : frame_ok O) m vm vmac h log :
-  wp_user O user_fuel m VNone VNone vm vmac (h, log) (post_value O m VNone VNone vmac).
+Lemma case_none_nomodule O (F : frame_ok O) m vmac h log :
+  wp_user O user_fuel m VNone VNone VNone vmac (h, log) (post_value O m VNone VNone vmac).
 Proof.
   unfold wp_user, user_fuel, user_kw.
   sx_go F.
